@@ -232,6 +232,21 @@ def run(repo, chk):
         chk.ob("R08.1", f"{state}:exempt-or-absent", state in EXEMPT, "ptera/",
                f"module/class-level container `{state}` is written at run time in {sorted(set(where))}: " + (EXEMPT.get(state) or "NOT in the exemption table (process-global handler/instrumentation state?)"))
 
+    # premise of the exemption of the selector-fit memo: only final results of fits_selector are ever stored in it
+    stores = []
+    for q, fi in repo.functions.items():
+        for n in walk_local(fi.node):
+            if isinstance(n, ast.Assign) and any(norm(t).startswith("_selector_fit_cache[") for t in n.targets):
+                ok_ = False
+                if isinstance(n.value, ast.Name):
+                    defs = [a for a in walk_local(fi.node) if isinstance(a, ast.Assign) and any(is_name(t, n.value.id) for t in a.targets) and a.lineno < n.lineno]
+                    ok_ = bool(defs) and isinstance(defs[-1].value, ast.Call) and norm(defs[-1].value.func) == "fits_selector" and q != "overlay.fits_selector"
+                stores.append((q, norm(n), ok_))
+    chk.ob("R08.1", "module:overlay._selector_fit_cache:exemption-premise", all(o for _, _, o in stores), "ptera/overlay.py",
+           "the memo is exempt from locking because every store writes the complete result of fits_selector for its key (racing writers store equal values): "
+           + ("holds for " + str([s_ for _, s_, _ in stores]) if all(o for _, _, o in stores) else
+              "VIOLATED by " + str([f"{q}: {s_}" for q, s_, o in stores if not o]) + " -- a provisional value is visible to other threads"))
+
     # ---------------- R08.2
     for e in ENTRY_POINTS:
         repo.func(e)
